@@ -899,6 +899,14 @@ class Executor:
         return [(s, list(vals)) if not isinstance(s, tuple) else (s, None)
                 for s, vals in self.eval_many(node.elts, st)]
 
+    def ex_Dict(self, node, st):
+        if any(not (isinstance(k, ast.Constant) and isinstance(k.value, (str, int)))
+               for k in node.keys):
+            raise Unsupported('dict display with computed keys')
+        return [(s, {k.value: v for k, v in zip(node.keys, vals)})
+                if not isinstance(s, tuple) else (s, None)
+                for s, vals in self.eval_many(node.values, st)]
+
     def ex_JoinedStr(self, node, st):
         return [(st, SStr())]
 
@@ -1404,7 +1412,7 @@ class Executor:
             return [(st, getattr(v, attr))]
         if isinstance(v, list) and attr in ('append', 'extend', 'copy', 'index'):
             return [(st, ('listmethod', v, attr))]
-        if isinstance(v, dict) and attr in ('get', 'items', 'keys', 'values', 'copy', 'pop'):
+        if isinstance(v, dict) and attr in ('get', 'items', 'keys', 'values', 'copy', 'pop', 'update'):
             return [(st, ('dictmethod', v, attr))]
         raise Unsupported(f'attribute {attr} of {type(v).__name__}')
 
